@@ -585,3 +585,28 @@ def expected_statements(items):
             out[slot] = (k, start, i)
     assert not stack
     return out
+
+
+ESC_ATOMS = [b'\\\\', b'\\"', b"\\'", b'\\n', b'\\t', b'\\a', b'\\b', b'\\f', b'\\r', b'\\v', b'\\0', b'\\9', b'\\14', b'\\15', b'\\92', b'\\092', b'\\x5c', b'\\x5C', b'\\34',
+             b'\\39', b'\\10', b'\\13', b'\\x0a', b'\\x00', b'\\000', b'\\014', b'\\255', b'\\*', b'\\#', b'\\-', b'\\|', b'\\+', b'\\^', b'\\\n']
+DIGIT_TAILS = [b'', b'0', b'7', b'00', b'07', b'49', b'007', b'1499', b'15', b'153', b'x41', b'n', b'\\']
+
+
+def string_escape_cases(rng, nrandom):
+    """Programs made of quoted literals whose bodies put every escape spelling next to what could be read as its continuation: digits after
+    numbered and named escapes (and after an escaped backslash), escape letters after an escape whose value is a backslash, raw control
+    bytes whose canonical spelling is a short numbered escape followed by digits."""
+    out = []
+    for a in ESC_ATOMS:
+        for t in DIGIT_TAILS:
+            if t == b'\\':
+                t = b'\\\\'
+            out.append(b's="' + a + t + b'" t=\'k' + a + a + t + b"'\n")
+    for raw in (b'\x00', b'\x0e', b'\x0f', b'\x01', b'\x06', b'\x07', b'\x0b', b'\x7f', b'\x80', b'\xff'):
+        for t in (b'', b'0', b'7', b'07', b'123', b'a'):
+            out.append(b'r="' + raw + t + b'" q=\'' + raw + raw + t + b"'\n")
+    atoms = ESC_ATOMS + [b'n', b'x', b'5', b'c', b'0', b'9', b'2', b'1', b'4', b' ', b'\x80', b'\xff', b'a', b'\x00', b'\x0e']
+    for _ in range(nrandom):
+        body = b''.join(rng.choice(atoms) for _ in range(rng.randrange(1, 7)))
+        out.append(b'v="' + body + b'" w=\'' + body + b"'\n")
+    return out
